@@ -286,7 +286,8 @@ func acceptsOfferType(spec, offerType string, specParams headerParams) bool {
 
 	s := strings.IndexByte(mimetype, '/')
 	// Accept: <MIME_type>/*
-	if strings.HasPrefix(spec, mimetype[:s]) && (spec[s:] == "/*" || mimetype[s:] == "/*") {
+	// (the types are compared with their slash: "text" is no prefix match for "textual/html")
+	if s != -1 && strings.HasPrefix(spec, mimetype[:s+1]) && (spec[s:] == "/*" || mimetype[s:] == "/*") {
 		return paramsMatch(specParams, offerParams)
 	}
 
